@@ -10,7 +10,7 @@ git("-C", "/repo", "worktree", "remove", "--force", WT)
 r = git("-C", "/repo", "worktree", "add", "--detach", WT, "HEAD")
 if r.returncode != 0: print(r.stderr); sys.exit(2)
 try:
-    for d in sorted(glob.glob("/verif/seeded/*")):
+    for d in sorted(glob.glob("/verif/seeded/C*")):
         name = os.path.basename(d)
         if only and name not in only and name.split("-")[0] not in only: continue
         prop = name.split("-")[0]
